@@ -135,18 +135,21 @@ CLAIMED = {
         "broadcasting behaviour of the setters and numeric results are not decided.",
     ),
     "C02": (
-        "commit-last ordering on the statement CFG + writer/reader header table agreement + who-may-write",
+        "commit-last ordering on the statement CFG + affine stream-offset abstract interpretation of put / the reopen scan (induction at the loop head) + who-may-write",
         "Decides, on every path of UKVFile.put, that argument validation precedes the first stream write and that "
         "every store to the handle's index/extent follows the last fallible step (a failed put changes nothing); that "
         "the buffered backend flushes before reading; that file/block header writers and readers agree field by field; "
-        "that the index shortcut is conditioned on the measured file size; that the stream is written only at _eof and "
-        "index entries are never replaced. A violation of any of these breaks C02 for some history; the converse "
+        "that put writes header | key | value back to back from _eof and indexes that offset with those lengths, and that the "
+        "reopen scan (by induction over its loop, on affine offset forms) indexes every block at the offset of its header, "
+        "continues at the end of the block and admits exactly the blocks that fit into the file; "
+        "that the index shortcut is conditioned on the measured file size; that nothing but put and the creating header "
+        "write touches the stream and index entries are never replaced. A violation of any of these breaks C02 for some history; the converse "
         "(byte-exact behaviour over all histories) is not decided.",
         "DESIGN.md section 4, C02",
         "struct/IO semantics trusted; one open known finding (F2c: key listed before a failing write).",
     ),
     "C03": (
-        "layout-invariant argument: guarded-scan dominance on the CFG + append-only who-may-write",
+        "layout-invariant argument: guarded-scan dominance on the CFG + affine offset relations (exact-fit test, _eof on every exit) + append-only who-may-write",
         "Decides the four code shapes that make the layout argument hold for every crash offset at once: writes only at "
         "_eof; the reopen scan admits a record only behind a completeness test whose 'torn' outcome cannot reach the "
         "index store; _eof/_last advance only behind it; a torn tail is truncated before the next append. No byte "
